@@ -149,6 +149,18 @@ claim('C16',
       'TLA+ spec (Cookie.tla) + TLC exhaustive + trace validation of executed session histories (Cookie_Trace.tla)',
       'DESIGN.md 3/C16')
 
+claim('C17',
+      'Render.tla is a decision model: value class (31 classes: JSON / HTML / plain / brace-delimited / padded text and bytes, scalars, '
+      'objects, generators, JSON-native mappings and sequences, data needing degradation) x format parameter x Accept class -> the set of '
+      'permitted outcomes (label + body relation), multi-valued where the property is silent; TLC checks totality, that text ignores '
+      'negotiation and that JSON is the answer unless HTML is asked for, and enumerates all 558 cases. Each case is instantiated with '
+      'several concrete values (corner cases + seeded random) and sent through a real Application using render_basic; the same values go '
+      'through render_json, render_json_dev, streaming and JSONP renderers; responses are projected (status, label, verbatim?, parses?, '
+      'parses back to the value?, contains a table?) and TLC judges every record (Render_Trace).',
+      'Trusted: TLC; the value->class classifier and json parse-back comparison (projection); no NaN/Infinity, non-string keys or lone surrogates.',
+      'TLA+ decision model (Render.tla) + TLC + record validation of projected responses (Render_Trace.tla); parse-back is projection-decided',
+      'DESIGN.md 3/C17')
+
 claim('C19',
       'TLC model-checks Reservoir.tla (algorithm shaped like Reservoir.add/resize refines the property relation; '
       'Bounded/OnlyAdded/NeverRaises/ExactCount in every reachable state, all replacement indices, all resize points) '
